@@ -151,7 +151,7 @@ fn mix(a: u64, b: u64) -> u64 {
 }
 
 pub fn run_check(ctx: &Ctx) {
-    ctx.set_rule("every constant of the shipped database (decoded by the harness from db/*.bin.gz) whose words are typable ([A-Za-z0-9°']+, first word not starting with a digit, no word `to`) is asked for by exactly its words joined by blanks (thorough: also every rotation, the reversal and 5 pseudo-random permutations); each against an in-memory database, the on-disk session that builds the index and reopened on-disk sessions; oracle: one value, one description whose phrase is the query, the returned constant carries every asked word, has a description, a resolvable source, its value and unit are the result, and it equals (unit ==, unit text, value, description, source) the constant the library decodes straight from the shipped file; also pairs of constants as the two root expressions of one query (each with its successor and with one from afar): each answers as it does alone; non-trivial = at least two words; distinct by query text");
+    ctx.set_rule("every constant of the shipped database (decoded by the harness from db/*.bin.gz) whose words are typable ([A-Za-z0-9°']+, first word not starting with a digit, no word `to`) is asked for by exactly its words joined by blanks (also every rotation, the reversal and pseudo-random permutations: 12 orders per constant, thorough 240); each against an in-memory database, the on-disk session that builds the index and reopened on-disk sessions; oracle: one value, one description whose phrase is the query, the returned constant carries every asked word, has a description, a resolvable source, its value and unit are the result, and it equals (unit ==, unit text, value, description, source) the constant the library decodes straight from the shipped file; also pairs of constants as the two root expressions of one query (each with its successor and with one from afar; thorough: with 59 from afar): each answers as it does alone; non-trivial = at least two words; distinct by query text");
     let f = facts();
     if !f.undecodable.is_empty() {
         ctx.record_case("decode", CaseReport::fail("decode", "shipped-constant-does-not-decode", json!(f.undecodable)), json!({"undecodable": f.undecodable}));
@@ -183,12 +183,13 @@ pub fn run_check(ctx: &Ctx) {
     ctx.put("exhaustive_scope", json!("all typable constants, own word order, against an in-memory database, the on-disk session that builds the index and reopened on-disk sessions"));
     // pairs of constants in one query: every constant with its successor in the data, and with one from afar
     let np = typ.len() as u64;
+    let partners = ctx.tier.pick(2u64, 60);
     ctx.run_enum(
         "two-constants-in-one-query",
-        np * 2,
+        np * partners,
         |i| {
-            let a = (i / 2) as usize;
-            let b = if i % 2 == 0 { (a + 1) % typ.len() } else { (mix(i, 7) % np) as usize };
+            let a = (i / partners) as usize;
+            let b = if i % partners == 0 { (a + 1) % typ.len() } else { (mix(i, 7) % np) as usize };
             if a == b {
                 None
             } else {
@@ -198,7 +199,7 @@ pub fn run_check(ctx: &Ctx) {
         |(a, b)| check_pair(a, b),
         |(a, b)| json!({"pair": [a, b]}),
     );
-    let per = ctx.tier.pick(12u64, 40);
+    let per = ctx.tier.pick(12u64, 240);
     ctx.run_enum(
         "permuted-words",
         typ.len() as u64 * per,
